@@ -157,11 +157,29 @@ class Real:
             self.nrev += 1
             wt.commit("commit r%d" % self.nrev, rev_id=b"r%d" % self.nrev)
         else:
+            from breezy.branch import Branch
             revno = wt.branch.revno()
-            if a["n"] == 1 and not a["keep"]:
-                uncommit(wt.branch, tree=wt)                              # the API default: one revision
+            kw = {}
+            if a["n"] != 1 or a["keep"] or not a.get("tree", True):
+                kw = dict(revno=revno - a["n"] + 1, keep_tags=a["keep"])                    # as cmd_uncommit calls it
+            if not a.get("tree", True):
+                target, tree = Branch.open(self.path), None                                # a branch without (knowledge of) a tree
             else:
-                uncommit(wt.branch, tree=wt, revno=revno - a["n"] + 1, keep_tags=a["keep"])   # as cmd_uncommit calls it
+                target, tree = wt.branch, wt
+            if a.get("refuse"):
+                from breezy import errors
+                mbase = self.master.base
+
+                def refuse(params):
+                    if params.branch.base == mbase:
+                        raise errors.TipChangeRejected("the master does not take this tip")
+                Branch.hooks.install_named_hook("pre_change_branch_tip", refuse, "vf-c16-refuse")
+                try:
+                    uncommit(target, tree=tree, **kw)
+                finally:
+                    Branch.hooks.uninstall_named_hook("pre_change_branch_tip", "vf-c16-refuse")
+            else:
+                uncommit(target, tree=tree, **kw)
 
     def close(self):
         shutil.rmtree(self.path, ignore_errors=True)
@@ -186,7 +204,7 @@ def execute(c, base):
                     raise
                 except BaseException as e:      # noqa - pyo3's PanicException is a BaseException; law "completes"
                     exc = "%s:%s" % (a["op"], type(e).__name__)
-                    dead = True
+                    dead = not (a.get("refuse") and exc == "uncommit:TipChangeRejected")
             obs.append(w.observe(exc))
         return obs
     finally:
@@ -261,9 +279,11 @@ def tags_to_drop(P, pre, a):
         lh.append(r)
         r = P[r - 1][0] if P[r - 1] else 0
     removed, rest = lh[:a["n"]], lh[a["n"]:]
-    keep = set(rest[:1]) | set(pre["wtp"][1:])
-    for x in removed:
-        keep |= set(P[x - 1][1:])
+    keep = set(rest[:1])
+    if a.get("tree", True):
+        keep |= set(pre["wtp"][1:])
+        for x in removed:
+            keep |= set(P[x - 1][1:])
     gone = anc(P, [pre["tip"]]) - anc(P, keep)
     return [t["name"] for t in pre["tags"] if t["rev"] in gone]
 
@@ -287,7 +307,8 @@ def input_class(law, row):
                 if before["tip"] == 0 and before["wtp"]:
                     return "commit-on-null-tip-with-tree-parents"
                 return ("bound" if c["bound"] else "standalone") + ("+pending" if len(before["wtp"]) > 1 else "")
-    return ("bound" if c["bound"] else "standalone") + ("+merge-removed" if is_merge_removed(c) else "")
+    notree = any(a["op"] == "uncommit" and not a.get("tree", True) for a in c["acts"])
+    return ("bound" if c["bound"] else "standalone") + ("+merge-removed" if is_merge_removed(c) else "") + ("+notree" if notree else "")
 
 
 def nontrivial_key(c):
@@ -300,7 +321,7 @@ def case_from_trace(trace):
     acts = []
     for _, st in trace[1:]:
         a = st["h"][-1]["act"]
-        acts.append({"op": a["op"], "n": a["n"], "keep": bool(a["keep"])})
+        acts.append({"op": a["op"], "n": a["n"], "keep": bool(a["keep"]), "tree": bool(a["tree"]), "refuse": bool(a["refuse"])})
     s = s0["s"]
     return {"P": [list(p) for p in s["P"]], "tip": s["tip"], "revno": s["revno"], "wtp": list(s["wtp"]),
             "tags": sorted(({"name": t[0], "rev": t[1]} for t in s["tags"]), key=lambda t: t["name"]),
@@ -328,11 +349,12 @@ def run(ctx):
     directed = [case_from_trace(res["trace"])]
     for b in (False, True):     # the empty world
         directed.append({"P": [], "tip": 0, "revno": 0, "wtp": [], "tags": [], "bound": b,
-                         "acts": [{"op": "commit", "n": 0, "keep": False}, {"op": "uncommit", "n": 1, "keep": False}]})
+                         "acts": [{"op": "commit", "n": 0, "keep": False, "tree": True, "refuse": False},
+                                  {"op": "uncommit", "n": 1, "keep": False, "tree": True, "refuse": False}]})
     # ---- E1 + E2: the case space
-    plans = [dict(MinRev=1, MaxRev=5, MaxPar=2, OneRoot="FALSE", GStride=4, Stride=23)] if q else \
-            [dict(MinRev=1, MaxRev=5, MaxPar=3, OneRoot="FALSE", GStride=8, Stride=9),
-             dict(MinRev=6, MaxRev=6, MaxPar=2, OneRoot="TRUE", GStride=16, Stride=9)]
+    plans = [dict(MinRev=1, MaxRev=5, MaxPar=2, OneRoot="FALSE", GStride=4, Stride=41)] if q else \
+            [dict(MinRev=1, MaxRev=5, MaxPar=3, OneRoot="FALSE", GStride=8, Stride=16),
+             dict(MinRev=6, MaxRev=6, MaxPar=2, OneRoot="TRUE", GStride=16, Stride=16)]
     cases = list(directed)
     for p in plans:
         consts = dict(p, MaxN=3, Offset=ctx.seed % p["Stride"])
@@ -375,7 +397,7 @@ def run(ctx):
             ctx.violation("%s:%s" % (law, cls),
                           "law %s fails on graph %s tree %s %s acts %s: observed %s" % (
                               law, c["P"], c["wtp"], "bound" if c["bound"] else "standalone",
-                              [(a["op"], a["n"], a["keep"]) for a in c["acts"]],
+                              [(a["op"], a["n"], a["keep"]) + (() if a.get("tree", True) else ("tree=None",)) + (("master refuses",) if a.get("refuse") else ()) for a in c["acts"]],
                               [(o["tip"], o["revno"], o["wtp"], o["exc"]) for o in row["impl"]]), row)
         if drift and not failed:
             ctx.drift("observed states differ from the transcription (order of pending merges / tags / master)", row)
@@ -389,7 +411,7 @@ def run(ctx):
                 break
     ctx.cov["exhaustive"] = False
     ctx.rule("TLC checks the laws on EVERY case of the bounded space (graphs x trees x uncommit depth 1..3 x keep_tags x "
-             "standalone/bound, behaviours Uncommit(n) and Commit.Uncommit(1)); replayed on real trees: the cases with "
+             "standalone/bound, behaviours Uncommit(n) - also with tree=None, and refused by the master of a bound branch - and Commit.Uncommit(1)); replayed on real trees: the cases with "
              "Key %% Stride = seed %% Stride of every GStride-th graph, the TLC counter-example of the unguarded model, "
              "the empty world, and TLC-simulated Commit/Uncommit sequences of depth <= 7; non-trivial = more than one "
              "revision or more than one action; distinct = (graph, tree parents, bound, actions)")
